@@ -146,7 +146,7 @@ func (fr *frame) runDefer(d *deferred) {
 // passThrough: engine-level control panics are never visible to the target's defer/recover.
 func passThrough(r any) bool {
 	switch r.(type) {
-	case pathAbort, engineFault, exitPanic:
+	case pathAbort, engineFault, exitPanic, mergeAbort:
 		return true
 	case *runtime.TypeAssertionError:
 		return true
